@@ -23,6 +23,9 @@ for src in $V/drivers/ext_*.c; do
   [ "$b" = "ext_all" ] && continue
   if [ -n "$FIBER_EXTS" ]; then
     case " $FIBER_EXTS " in *" ${b#ext_} "*) ;; *) continue;; esac
+  else
+    # extensions that need their own wrapper TUs/build script are not part of the default binary
+    case " $FIBER_SKIP_EXTS io " in *" ${b#ext_} "*) continue;; esac
   fi
   EXTS="$EXTS $b"
 done
